@@ -16,8 +16,8 @@
                        duplicated, none reordered
   Stated limits (each with a concrete witness below, so that nobody reads more into the theorems):
    * `protected_cmp_removed_witness`  : the compare-folding rule ignores `protected` on the compare
-   * `swap_across_inline_witness`     : a protected `LDA` followed by an inline line and `CLC` is
-                                        moved behind the inline line
+   * `swap_moves_protected_lda_witness`: a protected `LDA` followed by `CLC` changes place with it
+                                        (never across an inline line: `swap_stops_at_inline_witness`)
    * `dec_changes_flags_witness`      : csleep arms built from DEC / PLA change N and Z
   The order of protected `LDA`s relative to inline lines is therefore checked per compiled function
   (static comparison of the -O0 and -O1 sequences) and by co-execution, not by theorem.
@@ -86,9 +86,14 @@ theorem protected_cmp_removed_witness :
     (optimize [ins .LDA "#3", ins .CMP "#3" true, ins .BNE ".l", ins .RTS]).1
       = [ins .LDA "#3", .dummy, .dummy, ins .RTS] := by decide +kernel
 
-theorem swap_across_inline_witness :
+theorem swap_moves_protected_lda_witness :
+    (optimize [ins .LDA "v" true, .comment "c", ins .CLC, ins .RTS]).1
+      = [ins .CLC, .comment "c", ins .LDA "v" true, ins .RTS] := by decide +kernel
+
+/-- since the `fix:` that makes inline assembly a barrier, the swap never crosses an inline line -/
+theorem swap_stops_at_inline_witness :
     (optimize [ins .LDA "v" true, .inline "NOP" 1, ins .CLC, ins .RTS]).1
-      = [ins .CLC, .inline "NOP" 1, ins .LDA "v" true, ins .RTS] := by decide +kernel
+      = [ins .LDA "v" true, .inline "NOP" 1, ins .CLC, ins .RTS] := by decide +kernel
 
 theorem dec_changes_flags_witness :
     ∃ s : Cpu, ∃ s', s.exec .DEC (.mem 0x2d) = some s' ∧ s'.f.z ≠ s.f.z := by
